@@ -35,11 +35,20 @@ def node_impl(n):
     k = n["k"]
     if k == "interrupt":
         from harness.lib import components as _c
+        if n.get("nomsg"):
+            return {"processor": _c.VerifInterruptNoMessageOperation}
         return {"processor": {"KeyboardInterrupt": _c.VerifInterruptOperation, "SystemExit": _c.VerifSystemExitOperation,
                               "VerifAbort": _c.VerifCustomAbortOperation}[n.get("exc", "KeyboardInterrupt")]}
+    if k == "failing0":
+        from harness.lib import components as _c
+        return {"processor": _c.VerifFailingNoMessageOperation}
     if k in ("streamsrc", "streamsum", "sumitems"):
         from harness.lib import components as _c
         return {"processor": {"streamsrc": _c.VerifStreamSource, "streamsum": _c.VerifStreamSum, "sumitems": _c.VerifSumItems}[k]}
+    if k == "baddesc":
+        # a descriptor-valued parameter ({"class", "kwargs"}) whose instantiation fails when the run materialises it
+        return {"processor": "FloatMultiplyOperation",
+                "parameters": {"factor": {"class": "builtins.float", "kwargs": {"no_such_argument": 1}}}}
     if k == "datesweep":
         # what yaml.safe_load gives for `variables: {t: [2020-01-01, 2020-01-02]}`
         vals = [_dt.date(2020, 1, 1 + i) for i in range(n["n"])]
@@ -53,6 +62,10 @@ def node_coq(n):
     k = n["k"]
     if k in ("streamsrc", "streamsum", "sumitems"):
         raise pg.Unsupported("one-shot iterator component (direct oracle only)")
+    if k == "baddesc":
+        raise pg.Unsupported("descriptor-valued parameter (direct oracle only)")
+    if k == "failing0":
+        return "(mkNode lib_failing [] None)"     # the model's error carries the class, not the message
     if k == "interrupt":
         return "(mkNode (lib_abort %s) [] None)" % pg.cq_str(n.get("exc", "KeyboardInterrupt"))
     if k == "datesweep":
@@ -72,7 +85,7 @@ def node_meta(n):
 
 
 def node_repr(n):
-    if n["k"] in ("interrupt", "datesweep", "streamsrc", "streamsum", "sumitems"):
+    if n["k"] in ("interrupt", "datesweep", "streamsrc", "streamsum", "sumitems", "baddesc", "failing0"):
         c = node_impl(n)
         c = json.loads(json.dumps(c, default=lambda o: getattr(o, "__name__", None) or str(o)))
         return c
@@ -348,6 +361,8 @@ def first_diff(a, b, path=""):
             if d:
                 return d
         return None
+    if isinstance(a, float) and a != a and b != b:
+        return None             # NaN recorded twice is the same record content
     return None if a == b else (path or "/")
 
 
@@ -521,8 +536,8 @@ def rfc3339_to_epoch(s):
 
 # ----- cases: generated pipeline x failure point x failure kind ------------------------------------------------
 KINDS = ["none", "processor-exception", "unresolvable-parameter", "type-gate", "undeclared-write",
-         "unknown-parameter-at-construction", "probe-without-key-at-construction", "keyboard-interrupt",
-         "system-exit", "custom-base-exception"]
+         "unknown-parameter-at-construction", "probe-without-key-at-construction", "descriptor-at-construction", "keyboard-interrupt",
+         "system-exit", "custom-base-exception", "processor-exception-no-message", "keyboard-interrupt-no-message"]
 
 
 def out_dtype(node_obj):
@@ -547,6 +562,10 @@ def inject(nodes, i, kind, types, ctxs):
     have = ctxs[i] if i < len(ctxs) else set()
     if kind == "processor-exception":
         new = {"k": "failing"} if t == "F" else None
+    elif kind == "processor-exception-no-message":
+        new = {"k": "failing0"} if t == "F" else None
+    elif kind == "keyboard-interrupt-no-message":
+        new = {"k": "interrupt", "nomsg": True} if t == "F" else None
     elif kind == "keyboard-interrupt":
         new = {"k": "interrupt"} if t == "F" else None
     elif kind == "system-exit":
@@ -570,6 +589,8 @@ def inject(nodes, i, kind, types, ctxs):
         new = {"k": "square", "cfg": {"bogus": 1}}
     elif kind == "probe-without-key-at-construction":
         new = {"k": "probe", "ckey": None}
+    elif kind == "descriptor-at-construction":
+        new = {"k": "baddesc"}
     else:
         raise ValueError(kind)
     if new is None:
@@ -617,6 +638,10 @@ def _has_negzero(v, depth=0):
 
 def case_coq(nodes, data0, ctx0, r, prior=False, pid_same=True):
     """Gallina `tcase` of a traced run r (raises pg.Unsupported for values outside the model)"""
+    import math
+    for v in ctx0.values():
+        if isinstance(v, float) and (not math.isfinite(v) or _has_negzero(v)):
+            raise pg.Unsupported("NaN / infinity / negative zero in the initial context")
     last = r.log.entries[-1] if r.log.entries else None
     if last is not None and last["exc"] is not None and last["ctx_post"] != last["ctx_pre"]:
         # Model/Pipeline.v's exec_node has no partial effects on failure; the SER of such a node is still checked
